@@ -239,8 +239,8 @@ theorem applyEffect_sig (cfg : Cfg ρ) (s : State ρ) (e : Effect) :
   cases e with
   | setOwner n j => simp [applyEffect]
   | unsetOwner n => simp [applyEffect]
-  | signalTo j member body => simp [applyEffect, Delivery.isBusSignal]
-  | broadcast member body =>
+  | signalTo j member body args => simp [applyEffect, Delivery.isBusSignal]
+  | broadcast member body args =>
     intro dl hdl
     simp only [applyEffect, route, List.mem_map] at hdl
     obtain ⟨r, _, rfl⟩ := hdl
